@@ -5,6 +5,7 @@ import NadaVerif.Compile
 import NadaVerif.Spec.C02
 import NadaVerif.Spec.Graph
 import NadaVerif.Spec.Edge
+import NadaVerif.Spec.Taint
 
 namespace NadaVerif.Driver
 open Lean NadaVerif
@@ -199,7 +200,8 @@ def runEvents (m : Mach) (evs : List Json) : List Json × Mach := Id.run do
               ("closed", Json.bool (Spec.closed mir)), ("acyclic", Json.bool (Spec.acyclic mir)),
               ("scoped", Json.bool (Spec.argScoped mir)), ("exact", Json.bool (Spec.exact mir)),
               ("storeWF", Json.bool (Spec.storeWF m.st)),
-              ("clean", Json.bool clean), ("edges", Json.bool (Edge.storeEdgesOK m.st))])]]
+              ("clean", Json.bool clean), ("edges", Json.bool (Edge.storeEdgesOK m.st)),
+              ("reduceInit", Json.bool (Taint.reduceInitOK m.st)), ("taint", Json.bool (Taint.storeTaintOK m.st))])]]
           | .error e => out := out ++ [Json.mkObj [("err", Json.str (errStr e))]]
       | .error _ => out := out ++ [Json.mkObj [("error", Json.str "bad event")]]
   return (out, m)
